@@ -163,6 +163,21 @@ pub proof fn lemma_glob<P: Prefix, T>(t: Seq<Node<P, T>>, live: ISet<int>)
     lemma_glob_par(t, live, par);
 }
 
+/// light version of lemma_twf: only the live-set fact, none of the pair-triggered global quantifiers
+pub proof fn lemma_twf_live<P: Prefix, T>(t: Seq<Node<P, T>>)
+    requires twf(t)
+    ensures twf_live(t, tlive(t))
+{
+}
+
+/// index bound of a live node (does not export the global quantifiers)
+pub proof fn lemma_live_bound<P: Prefix, T>(t: Seq<Node<P, T>>, i: int)
+    requires twf(t), tlive(t).contains(i)
+    ensures 0 <= i < t.len(), kb(t, i).len() <= 255
+{
+    lemma_twf(t);
+}
+
 /// point-wise versions of (U) and (D): they do not bring the pair-triggered quantifiers into scope
 pub proof fn lemma_desc<P: Prefix, T>(t: Seq<Node<P, T>>, live: ISet<int>, i: int, n: int)
     requires twf_live(t, live), live.contains(i), live.contains(n), spre(kb(t, i), kb(t, n))
